@@ -698,6 +698,44 @@ def _same_array(sup, node, op, arr):
     return False
 
 
+def _read_then_exact(sup, arr, width):
+    """{node: bytes} for the two-step fill of the decoded array: `let k = src.read(&mut arr)?; src.read_exact(&mut
+    arr[k..])?` takes exactly the array's length from the source, whatever k was (the first call counts 0, the second
+    the whole width; a path that leaves between the two is then counted short, as it should be)."""
+    out = {}
+    if arr is None:
+        return out
+    for nn, body, t in sup.calls():
+        f = fn_of(t) or {}
+        if not (f.get("trait") == "std::io::Read" and f.get("name") == "read_exact" and len(t["args"]) == 2):
+            continue
+        bt = trace(body, t["args"][1])
+        if not (bt.origin and bt.origin[0] == "call" and (fn_of(bt.origin[2]) or {}).get("trait") in ("std::ops::IndexMut", "std::ops::Index") and len(bt.origin[2]["args"]) == 2):
+            continue
+        ix = bt.origin[2]
+        if not _same_array(sup, (nn[0], bt.origin[1]), ix["args"][0], arr):
+            continue
+        rt = trace(body, ix["args"][1])
+        if not (rt.origin and rt.origin[0] == "agg" and str(rt.origin[1]["rv"].get("variant") or rt.origin[1]["rv"].get("agg") or "").endswith("RangeFrom") and rt.origin[1]["rv"]["ops"]):
+            continue
+        kt = trace(body, rt.origin[1]["rv"]["ops"][0], passthrough_extra=("std::ops::Try::branch",))
+        if not (kt.origin and kt.origin[0] == "call"):
+            continue
+        rc = kt.origin[2]
+        rf = fn_of(rc) or {}
+        if not (rf.get("trait") == "std::io::Read" and rf.get("name") == "read" and len(rc["args"]) == 2 and any(st[0] == "downcast" and st[1] in ("Continue", "Ok") for st in kt.steps)):
+            continue
+        rnode = (nn[0], kt.origin[1])
+        if not _same_array(sup, rnode, rc["args"][1], arr):
+            continue
+        # same source, and the first read comes first
+        if trace(body, rc["args"][0]).origin != trace(body, t["args"][0]).origin or not body.dominates(kt.origin[1], nn[1]):
+            continue
+        out[rnode] = 0
+        out[nn] = width
+    return out
+
+
 def _unit_effects(sup, node, arr, width):
     """(bytes taken from a reader, bytes added to a u64 position) by the block `node` of a supergraph, in units of
     bytes; None for an amount that cannot be determined. A read_exact into the decoded array `arr` and a length
@@ -851,6 +889,7 @@ def r07_8(ctx):
             budget = [0]
 
             ps = PathSens(sup, payloads=True)
+            two_step = _read_then_exact(sup, arr, width)
 
             def walk(node, facts, seen, used, adv):
                 """Variant-aware walk: a helper that returned `Ok(None)` is not followed into the caller's `Some`
@@ -860,6 +899,8 @@ def r07_8(ctx):
                     return
                 if node != dn:
                     u, a = _unit_effects(sup, node, arr, width)
+                    if node in two_step:
+                        u = two_step[node]
                     used = None if (u is None or used is None) else used + u
                     adv = None if (a is None or adv is None) else adv + a
                 if node == dn:
